@@ -29,6 +29,15 @@ def jump_stmt(r, limit_ns):
     return '%s(%d);' % (name, v), v * mul
 
 
+JN = [0]
+
+def stored(r, js):
+    """the same jump as a value bound by let (right after the imports) and executed where the statement stood:
+    a jump takes effect where it is executed, not where it is bound; an unused binding has no effect"""
+    JN[0] += 1
+    return 'let jmp%d = %s' % (JN[0], js), 'jmp%d;' % JN[0]
+
+
 def campaign(c):
     c.rule = RULE
     lib = Lib()
@@ -51,7 +60,12 @@ def campaign(c):
         body = list(stmts)
         for _ in range(r.below(4)):
             js, d = jump_stmt(r, LIMIT // 8)
-            pos = nimp + r.below(len(body) - nimp + 1); body.insert(pos, js); total += d
+            pos = nimp + r.below(len(body) - nimp + 1)
+            if r.chance(1, 3):
+                decl, use = stored(r, js); body.insert(pos, use); body.insert(nimp, decl); c.count('stored-jump')
+                if r.chance(1, 3): body.insert(nimp, stored(r, jump_stmt(r, LIMIT // 8)[0])[0])     # a jump that is bound and never executed
+            else: body.insert(pos, js)
+            total += d
         base_src = ('\n'.join(body) + '\n' + tail).encode()
         impl, model = progdiff.run_both(c, base_src)
         progdiff.compare(c, base_src, impl, model, 'time', project=lambda f: len(f).to_bytes(4, 'big'))   # timestamps and sizes only
@@ -78,6 +92,8 @@ def campaign(c):
                 js, d = jump_stmt(r, LIMIT // 8)
                 pos = nimp + r.below(len(body) - nimp + 1)
                 twin = body[:pos] + [js] + body[pos:]
+                if r.chance(1, 3) and pos >= nimp:
+                    decl, use = stored(r, js); twin = body[:nimp] + [decl] + body[nimp:pos] + [use] + body[pos:]; js = decl + ' ... ' + use
                 tsrc = ('\n'.join(twin) + '\n' + tail).encode()
                 ti, tm = progdiff.run_both(c, tsrc)
                 progdiff.compare(c, tsrc, ti, tm, 'time-twin', project=lambda f: len(f).to_bytes(4, 'big'))
